@@ -227,5 +227,11 @@ MCTypeOK == \A n \in Nodes : com[n] <= dur[n] /\ dur[n] <= Len(pre[n]) /\ Cardin
 CommittedOnGrantor == \A r \in Nodes : (role[r] = "replica" /\ syncOn[r] /\ allowBy[r] # None) =>
                           (allow[r] <= com[allowBy[r]] \/ allow[r] <= com[r])
 Emit == (EmitDepth > 0 /\ Len(sched) = EmitDepth) => PrintT(<<"JSON:", ToJson([steps |-> sched])>>)
-View == <<vars, allow, rs, lastTx, running, pc, ans, queue, lost, nextAlh, nfail, nrestart, bad>>
+\* dead values are hidden: the state a replicator read is used only until the round is over, the cursor of a stopped replicator
+\* is re-initialised before its next use, the fetched-from set matters only for asynchronous replication
+View == <<pre, dur, com, role, follows, syncOn, need, everDur, created, acked, allowBy,
+          [n \in Nodes |-> IF pc[n] = "idle" THEN NoSt ELSE rep[n]], IF SyncRepl THEN 0 ELSE srcs,
+          allow, rs, [n \in Nodes |-> IF running[n] THEN lastTx[n] ELSE 0], running, pc, ans, queue, lost, nextAlh, nfail, nrestart, bad>>
+\* the replicas are interchangeable
+Sym == Permutations(Others)
 =============================================================================
